@@ -8,7 +8,7 @@
    (2) the operator, function and reserved-word tables regenerated from the sources are the standard ones.
    Not proved (trusted, exercised by the stream): CPython's ast.parse, the re module, sympy's arithmetic. *)
 From Coq Require Import List String QArith.
-From Bq Require Import Expr Parser ParserFacts ParserRoundTrip.
+From Bq Require Import Expr StdSem Parser ParserFacts ParserRoundTrip.
 From BqGen Require Import GenParser.
 Import ListNotations.
 Open Scope string_scope.
@@ -41,6 +41,13 @@ Theorem C11_op_tables : forall node meaning,
   In (node, meaning) standard_binary -> lookup node gen_binary_op_map = Some meaning.
 Proof. exact binary_table_standard. Qed.
 Print Assumptions C11_op_tables.
+
+(* `//` goes through the parser's own helper: Python's floor division except on exact rationals with a non-zero divisor,
+   where the translated arithmetic (quotient recovered from the remainder) is the floor of the exact quotient *)
+Theorem C11_floordiv_helper : lookup "_floordiv" gen_operator_helper_fallbacks = Some "operator.floordiv" /\
+  forall a b : Q, ~ b == 0 -> gen_helper_floordiv a b == Qfloordiv a b.
+Proof. exact (conj floordiv_helper_fallback floordiv_helper_is_floor). Qed.
+Print Assumptions C11_floordiv_helper.
 
 Theorem C11_unary_minus : lookup "ast.USub" gen_unary_op_map = Some "operator.neg".
 Proof. exact unary_minus_is_negation. Qed.
